@@ -111,7 +111,12 @@ def gen_cases(ctx):
             cls = rng.choice(["MolGraph", "StereoMolGraph"])
             a = gen.random_pg(rng, cls, n_range=(2, 10), alphabet=rng.choice([gen.TINY, gen.SMALL, gen.WIDE]), p_stereo=0.4)
             how = rng.random()
-            if how < 0.6:
+            if (i // 3) % 10 == 7:  # ligand exchange between two centres of one element (coordination numbers 2..8, rarely 9)
+                r = gen.ligand_exchange_pair(rng, cls, kmax=9 if (i // 30) % 8 == 0 else 8)
+                if not r:
+                    continue
+                a, b = r
+            elif how < 0.6:
                 r = gen.mutate(rng, sem.pg_relabel(a, gen.random_bijection(rng, a)), rng.choice(["element", "element", "move_bond", "add_bond", "remove_bond"]))
                 if not r:
                     continue
